@@ -332,7 +332,7 @@ macro_rules! family {
                     46 => { if let (Some(a), Some(b)) = (pick(c, &s.rig4), pick(c, &s.rig4)) { s.p_rig4("Mat4 * Mat4 (rigid)", a * b); s.consumer_steps_on_produced += 1; } if let (Some(a), Some(b)) = (pick(c, &s.rig_a3), pick(c, &s.rig_a3)) { s.p_rig_a3("Affine3 * Affine3 (rigid)", a * b); } "rigid products" }
                     47 => { boundary_clamps(c, s); "clamp at the precondition boundary (all vector types)" }
                     48 => { if let Some(m) = pick(c, &s.rig4) { let (sc, r, t) = m.to_scale_rotation_translation(); s.o3(sc); s.p_uq("Mat4::to_scale_rotation_translation(rigid).rotation", r); s.o3(t); s.consumer_steps_on_produced += 1; } "rigid to_srt" }
-                    49 => { let (q, fed) = uq(c, s); let sc = seed_scale(c); let t = seed_v3(c) * 10.0; let m = $M4::from_scale_rotation_translation(sc, q, t); let (s2, r2, t2) = m.to_scale_rotation_translation(); s.o3(s2); s.p_uq("to_scale_rotation_translation(TRS).rotation", r2); s.o3(t2); let a = $A3::from_scale_rotation_translation(sc, q, t); let (s3, r3, t3) = a.to_scale_rotation_translation(); s.o3(s3); s.p_uq("Affine3::to_scale_rotation_translation(TRS).rotation", r3); s.o3(t3); if fed { s.consumer_steps_on_produced += 1; } "TRS decompose" }
+                    49 => { let (q, fed) = uq(c, s); let sc = seed_scale(c); let t = seed_v3(c) * 10.0; let m = $M4::from_scale_rotation_translation(sc, q, t); let (s2, r2, t2) = m.to_scale_rotation_translation(); s.o3(s2); s.p_uq("to_scale_rotation_translation(TRS).rotation", r2); s.o3(t2); let a = $A3::from_scale_rotation_translation(sc, q, t); let (s3, r3, t3) = a.to_scale_rotation_translation(); s.o3(s3); s.p_uq("Affine3::to_scale_rotation_translation(TRS).rotation", r3); s.o3(t3); /* the same with scales of 2^-10 .. 2^10: the documented precondition is a non-zero determinant, however small */ let k = (2.0f64).powf(c.r(-10.0, 10.0)) as F; let a = $A3::from_scale_rotation_translation(sc * k, q, t); let (s4, r4, t4) = a.to_scale_rotation_translation(); s.o3(s4); s.p_uq("Affine3::to_scale_rotation_translation(TRS, scale 2^-10..2^10).rotation", r4); s.o3(t4); let m = $M4::from_scale_rotation_translation(sc * k, q, t); let (s5, r5, t5) = m.to_scale_rotation_translation(); s.o3(s5); s.p_uq("Mat4::to_scale_rotation_translation(TRS, scale 2^-10..2^10).rotation", r5); s.o3(t5); if fed { s.consumer_steps_on_produced += 1; } "TRS decompose" }
                     50 => { if $f32only { f32only_step(c, s); } "f32-only (Vec3A / Mat3A / Affine3A)" }
                     51 => {
                         // inverses of well-conditioned matrices of either orientation (reflections, mirrored scales, small determinants):
